@@ -1377,6 +1377,10 @@ class ContactHandler(Messenger, dbus.service.Object):
         '''
         if reason_code is None:
             reason_code = messages.SessionTerm.Reason.UNKNOWN
+        if not self._in_sess:
+            # No session to terminate gracefully yet
+            self.close()
+            return
         self.send_sess_term(reason_code, False)
 
     @dbus.service.method(DBUS_IFACE, in_signature='', out_signature='')
